@@ -715,7 +715,11 @@ def _quota_by_evaluation(repo, ut, fi):
         (1, [], False),
     ]
     for quota, samples, raises in scen:
-        for as_engine in (False, True):
+        # (a question about the kind of a sample -- isinstance(sample, int)
+        # -- is answered no in one run and yes in the other: no kind of
+        # value may go unmeasured)
+        for as_engine, kind_answer in ((False, False), (True, False),
+                                       (False, True)):
             vals = [absint.Sym('value%d' % i) for i in range(len(samples))]
             size = {v.name: sz for v, (c, sz) in zip(vals, samples)}
             measured = []
@@ -740,6 +744,8 @@ def _quota_by_evaluation(repo, ut, fi):
                     return 'bool' in names or 'int' in names
                 if isinstance(value, int):
                     return 'int' in names
+                if any(value is v for v in vals):
+                    return kind_answer
                 return False
             first = absint.Obj('engine', options=absint.Sym('options')) \
                 if as_engine else quota
@@ -753,9 +759,10 @@ def _quota_by_evaluation(repo, ut, fi):
                 return None
             except absint._Raise:
                 out = ('raise', None)
-            what = 'quota %d (%s), samples count x size %s' % (
+            what = 'quota %d (%s), samples count x size %s%s' % (
                 quota, 'from the engine' if as_engine else 'given',
-                samples)
+                samples, ' of a kind the function asks about'
+                if kind_answer else '')
             if raises and out[0] != 'raise':
                 return False, 'with %s the running total exceeds the ' \
                     'quota but no error is raised' % what
